@@ -9,3 +9,11 @@ package jt808
 func rtUnescape(d, e []byte) ([]byte, error) { return unescape(e) }
 
 func rtEscape(d []byte) ([]byte, error) { return rtUnescape(d, escape(d)) }
+
+// rtMessage is the statement of C01 on the real functions: frame a body with a header, decode the frame.
+func rtMessage(h *Header, body []byte) (*JTMessage, error) {
+	data := h.Encode(body)
+	j := NewJTMessage()
+	err := j.Decode(data)
+	return j, err
+}
